@@ -3,8 +3,11 @@
 (* holds the helper functions (called directly, through a function address  *)
 (* in a register, recursively, and from a C callback), module 2 holds two   *)
 (* entry functions eA and eB that import them.  The link chooses one        *)
-(* interface for every function; afterwards entries are called in any order *)
-(* through MIR_interp or through their public address.                      *)
+(* interface for every function - or one for the helper module, linked       *)
+(* first, and another for the entry module, loaded and linked afterwards     *)
+(* (calls then cross between interpreted and generated code through the     *)
+(* public addresses); afterwards entries are called in any order through    *)
+(* MIR_interp or through their public address.                              *)
 (*                                                                          *)
 (* Implementation-shaped state: what each function's public address (thunk) *)
 (* currently leads to.  The property - behaviour is the same for every      *)
@@ -20,22 +23,26 @@ Funcs == Entries \cup Helpers
 Ifaces == {"interp", "gen", "lazy", "bb"}
 Levels == {0, 1, 2, 3}
 
-VARIABLES iface, level, target, ncalls, h
-vars == <<iface, level, target, ncalls, h>>
-View == <<iface, level, target, ncalls>>
+VARIABLES iface,      \* interface of the entry module ("none" before the link)
+          ihelp,      \* interface of the helper module
+          level, target, ncalls, h
+vars == <<iface, ihelp, level, target, ncalls, h>>
+View == <<iface, ihelp, level, target, ncalls>>
 
 (* helpers an entry may reach (statically): all of them; g2 and g5 can be re-entered *)
 Reach(e) == Helpers
 
-Init == iface = "none" /\ level = 0 /\ target = [f \in Funcs |-> "undef"] /\ ncalls = 0 /\ h = <<>>
+Init == iface = "none" /\ ihelp = "none" /\ level = 0 /\ target = [f \in Funcs |-> "undef"] /\ ncalls = 0 /\ h = <<>>
 
-Link(i, l) ==
+TargetOf(i) == CASE i = "interp" -> "interp_shim" [] i = "gen" -> "code" [] i = "lazy" -> "lazy_wrapper" [] i = "bb" -> "bb_wrapper"
+(* i: interface of the entry module, ih: of the helper module (two MIR_link calls when they differ; mixed links at level 2 only) *)
+Link(i, ih, l) ==
   /\ iface = "none"
-  /\ iface' = i /\ level' = (IF i = "interp" THEN 0 ELSE l)
-  /\ target' = [f \in Funcs |-> CASE i = "interp" -> "interp_shim" [] i = "gen" -> "code"
-                                   [] i = "lazy" -> "lazy_wrapper" [] i = "bb" -> "bb_wrapper"]
+  /\ ih # i => l = 2
+  /\ iface' = i /\ ihelp' = ih /\ level' = (IF i = "interp" /\ ih = "interp" THEN 0 ELSE l)
+  /\ target' = [f \in Funcs |-> TargetOf(IF f \in Entries THEN i ELSE ih)]
   /\ UNCHANGED ncalls
-  /\ h' = Append(h, [a |-> "link", i |-> i, l |-> level'])
+  /\ h' = Append(h, [a |-> "link", i |-> i, ih |-> ih, l |-> level'])
 
 (* via = "api": MIR_interp (only meaningful with the interpreter interface), via = "addr": through item->addr *)
 Call(e, via) ==
@@ -48,10 +55,10 @@ Call(e, via) ==
                           [] target[f] = "bb_wrapper" -> "bb_code"        \* first call starts per-block generation
                           [] OTHER -> target[f])
                   ELSE target[f]]
-  /\ UNCHANGED <<iface, level>>
+  /\ UNCHANGED <<iface, ihelp, level>>
   /\ h' = Append(h, [a |-> "call", e |-> e, via |-> via, first |-> target[e] \in {"lazy_wrapper", "bb_wrapper"}])
 
-Next == (\E i \in Ifaces, l \in Levels : Link(i, l)) \/ (\E e \in Entries, via \in {"api", "addr"} : Call(e, via))
+Next == (\E i \in Ifaces, ih \in Ifaces, l \in Levels : Link(i, ih, l)) \/ (\E e \in Entries, via \in {"api", "addr"} : Call(e, via))
 Spec == Init /\ [][Next]_vars
 
 (* once code, always code; a wrapper is left only by a call *)
